@@ -93,6 +93,14 @@ func (c *LRUCache) Remove(key string) {
 	c.cache.Remove(key)
 }
 
+// Purge removes all contents from the cache. OnEvicted callback will be called for each of
+// them when nobody refers to it.
+func (c *LRUCache) Purge() {
+	c.mu.Lock()
+	defer c.mu.Unlock()
+	c.cache.Clear()
+}
+
 func (c *LRUCache) decreaseOnceFunc(rc *refCounter) func() {
 	var once sync.Once
 	return func() {
